@@ -46,7 +46,7 @@ def protocol_violations(obs_op, settings):
 def run(ctx):
     vlib.regen(ctx, ("consts",))
     vlib.coq_hygiene(ctx)
-    vlib.coq_properties(ctx, "C12", extra_files=("Properties_IPMControl.v",))
+    vlib.coq_properties(ctx, "C12", extra_files=("Properties_IPMControl.v", "Properties_C01.v"))
     rng = ctx.rng
     cases = []
     K = 6 if ctx.quick() else 14
